@@ -30,6 +30,9 @@ type c16Case struct {
 	// Nested: the tail goes into a clone of the clone; it is appended to the (otherwise unused) first clone, which is
 	// then appended to the original
 	Nested bool `json:"nested,omitempty"`
+	// FinAtSplit: Finalize is (also) called at the split point - on the direct emitter between the two halves, on the
+	// original right before it is cloned; whatever it resolves or reports there, the outcome at the end must be the same
+	FinAtSplit bool `json:"fin_at_split,omitempty"`
 }
 
 type emObs struct {
@@ -69,6 +72,26 @@ func (a emObs) diff(b emObs) string {
 	return ""
 }
 
+// diffMasked is diff without the listings and without the operand bytes of label references (mask): a Finalize that
+// fails has patched whichever references it came to first (it walks a map), so two emitters with the same history may
+// differ in those bytes until a later Finalize succeeds.
+func (a emObs) diffMasked(b emObs, mask map[int]bool) string {
+	if mask == nil {
+		return a.diff(b)
+	}
+	x, y := a.snap, b.snap
+	x.bytes, y.bytes = append([]byte(nil), x.bytes...), append([]byte(nil), y.bytes...)
+	for i := range mask {
+		if i < len(x.bytes) {
+			x.bytes[i] = 0
+		}
+		if i < len(y.bytes) {
+			y.bytes[i] = 0
+		}
+	}
+	return x.diff(y, true)
+}
+
 func c16Check(c c16Case) error {
 	if c.Split < 0 || c.Split > len(c.Ops) {
 		return fmt.Errorf("malformed case")
@@ -82,8 +105,16 @@ func c16Check(c c16Case) error {
 	total := needOf(c.Ops) + needOf(c.Coda) + 16
 	// direct emitter
 	d := asm.NewEmitter(make([]byte, total), c.Listing)
-	for _, o := range c.Ops {
+	var finD, finA error
+	var mask map[int]bool
+	for i, o := range c.Ops {
+		if c.FinAtSplit && i == c.Split {
+			finD = rig.Safe(func() error { return d.Finalize() })
+		}
 		asmcat.ApplyReal(d, o) // refusals (wrong width, duplicate label) are part of the history on both sides
+	}
+	if c.FinAtSplit && c.Split == len(c.Ops) {
+		finD = rig.Safe(func() error { return d.Finalize() })
 	}
 	// split emitters
 	acap := total
@@ -127,6 +158,29 @@ func c16Check(c c16Case) error {
 	}
 	for _, o := range head {
 		asmcat.ApplyReal(a, o)
+	}
+	if c.FinAtSplit {
+		finA = rig.Safe(func() error { return a.Finalize() })
+		if (finA == nil) != (finD == nil) {
+			return fmt.Errorf("Finalize at the split point: %v on the original, %v on the direct emitter after the same calls", finA, finD)
+		}
+		if finD != nil {
+			// until a Finalize succeeds, operand bytes of label references are compared no more
+			mask = map[int]bool{}
+			m := asmcat.NewModel(1<<30, false, false)
+			for _, o := range c.Ops {
+				m.Apply(o)
+			}
+			for _, o := range c.Coda {
+				m.Apply(o)
+			}
+			for _, r := range m.Refs {
+				mask[r.Off] = true
+				if r.Wide {
+					mask[r.Off+1] = true
+				}
+			}
+		}
 	}
 	atSplit := observe(a)
 	cloneTarget := make([]byte, needOf(tail)+16)
@@ -185,13 +239,13 @@ func c16Check(c c16Case) error {
 	if pan != nil {
 		return fmt.Errorf("Append panicked although the tail (%d bytes) fits (%d free): %v", tailBytes, acap-atSplit.snap.n, pan)
 	}
-	if df := observe(d).diff(observe(a)); df != "" {
+	if df := observe(d).diffMasked(observe(a), mask); df != "" {
 		return fmt.Errorf("after Clone+Append the emitter differs from one that received the whole sequence (split at %d of %d): %s", c.Split, len(c.Ops), df)
 	}
 	if !inPlace {
 		// the appended clone is used further (it has its own buffer): no call on the original, nothing may change there
 		_ = rig.Safe(func() error { cl.Comment("variant"); cl.EmitBytes([]byte{1, 2, 3}); return nil })
-		if df := observe(d).diff(observe(a)); df != "" {
+		if df := observe(d).diffMasked(observe(a), mask); df != "" {
 			return fmt.Errorf("the clone was used again after it had been appended and the original changed: %s", df)
 		}
 	}
@@ -208,7 +262,7 @@ func c16Check(c c16Case) error {
 		_ = rig.Safe(func() error { cl.Comment("variant"); cl.EmitBytes([]byte{4, 5}); return nil })
 	}
 	if len(c.Coda) > 0 {
-		if df := observe(d).diff(observe(a)); df != "" {
+		if df := observe(d).diffMasked(observe(a), mask); df != "" {
 			return fmt.Errorf("after Append and %d further calls the emitters differ: %s", len(c.Coda), df)
 		}
 	}
@@ -374,6 +428,10 @@ func TestC16(t *testing.T) {
 				}
 				if rapid.IntRange(0, 5).Draw(t, "short") == 0 {
 					c.Short = rapid.IntRange(1, 4).Draw(t, "short-by")
+				}
+				if rapid.IntRange(0, 3).Draw(t, "finalize-at-split") == 0 {
+					c.FinAtSplit = true
+					ev.Class("Finalize-also-called-at-the-split-point")
 				}
 				r.Check(t, "rapid", c, func() error { return c16Check(c) })
 				// classify: label defined on one side, referenced on the other
